@@ -859,7 +859,7 @@ impl TcpConnecter {
           tracing::warn!(handle = connecter_handle, uri = %endpoint_uri_clone, error = %attempt_failure_error, "Connecter: TCP connect attempt #{} failed.", attempt_count);
 
           if is_fatal_connect_error(&attempt_failure_error)
-            || matches!(&attempt_failure_error, ZmqError::Internal(s) if s.contains("shutdown by") || s.contains("event bus error"))
+            || matches!(&attempt_failure_error, ZmqError::Internal(s) if s.contains("shutdown by") || s.contains("event bus error") || s.contains("aborted by system event"))
           {
             tracing::error!(handle = connecter_handle, uri = %endpoint_uri_clone, error = %attempt_failure_error, "Connecter: Fatal error. Stopping.");
             break 'connecter_life_loop;
@@ -886,7 +886,7 @@ impl TcpConnecter {
     }
 
     if let Some(ref final_err) = last_connect_attempt_error {
-      if !matches!(final_err, ZmqError::Internal(s) if s.contains("shutdown by") || s.contains("event bus error"))
+      if !matches!(final_err, ZmqError::Internal(s) if s.contains("shutdown by") || s.contains("event bus error") || s.contains("aborted by system event"))
       {
         let _ = self
           .context
